@@ -29,6 +29,7 @@ try:
     if subprocess.call(["go", "build", "./..."], cwd=W, env=env) != 0:
         print("MUTANT DOES NOT BUILD"); sys.exit(3)
     env["VERIF_REPO"] = W
+    env["VERIF_EVIDENCE_DIR"] = "/verif/out/mutant-evidence"  # never overwrite the evidence of the unchanged tree
     rc = subprocess.call(["/verif/run.py", a.id] + a.rest, cwd="/verif", env=env)
     print("mutant rc=%d" % rc)
     sys.exit(rc)
